@@ -140,8 +140,12 @@ def tables(repo):
 
     def regex_src(name):
         v = _class_assign(host, name)
-        if not (isinstance(v, ast.Call) and isinstance(v.args[0], ast.Constant)):
-            raise Unknown("HostnameField.%s is not re.compile(<literal>)" % name)
+        if not (isinstance(v, ast.Call) and ast.unparse(v.func) == "re.compile" and len(v.args) == 1 and not v.keywords and isinstance(v.args[0], ast.Constant)
+                and isinstance(v.args[0].value, str)):
+            # a second argument or a keyword is a FLAG (re.IGNORECASE makes [a-z] match K, ſ, ı, İ too): not the pattern the model reads
+            raise Unknown("HostnameField.%s is not re.compile(<one literal pattern, no flags>)" % name)
+        if "(?" in v.args[0].value:
+            raise Unknown("HostnameField.%s uses an inline flag or group extension" % name)
         return v.args[0].value
 
     host_re, nb_re = regex_src("HOSTNAME_REGEX"), regex_src("NETBIOS_REGEX")
